@@ -36,7 +36,7 @@ const Params* PP = &PSETS[0];
 // ------------------------------------------------------------------ expression trees and their closed forms
 enum NodeKind { N_CONST, N_TIME, N_VAR, N_SIN, N_PLUS, N_MINUS, N_SCALE };
 struct Node { int kind; int l = -1, r = -1; int slot = 0; };
-struct Tree { std::vector<Node> n; int root = -1; std::string desc; int nvar = 0; int depth = 0; bool hasTime = false, hasSin = false; };
+struct Tree { std::vector<Node> n; int root = -1; std::string desc; int nvar = 0; int depth = 0; bool hasTime = false, hasSin = false; bool staleSub = false; };
 
 struct SinT { double a, w, p; };
 struct CF {   // c0 + c1 t + sum a sin(w t + p) + sum_k cv[k] v_k(t)   (v_k piecewise constant)
@@ -81,6 +81,8 @@ std::vector<Tree> makeTrees(bool vec) {
         n.slot = a.depth;    // scale factor index
         t.n.push_back(n); t.root = (int)t.n.size() - 1;
         t.depth = std::max(a.depth, b ? b->depth : 0) + 1;
+        // an operator node whose whole subtree is time independent and contains a Variable: its result is cached "at Model stage"
+        t.staleSub = a.staleSub || (b && b->staleSub) || (!t.hasTime && !t.hasSin && t.nvar > 0);
         t.desc = op == N_SCALE ? "Scale(" + a.desc + ")" : std::string(op == N_PLUS ? "Plus(" : "Minus(") + a.desc + "," + b->desc + ")";
         return t;
     };
@@ -257,7 +259,7 @@ void runCase(verif::Run& run, const std::vector<Tree>& trees, const CaseId& id, 
     // at construction (>= Instance at run time).  Everything cached "at Model stage" (Plus/Minus/Scale results, Extreme's update
     // entries, ...) of an operand without time dependence therefore survives a setValue().  All oracle failures of that class
     // after the change are keyed under this prefix.
-    const bool staleClass = id.hist == H_SETVAR && !tree.hasTime && !tree.hasSin;
+    const bool staleClass = id.hist == H_SETVAR && ((!tree.hasTime && !tree.hasSin) || tree.staleSub);
     bool staleNow = false;      // set once the Variable has been changed in a staleClass case
     // all oracles go through here; in the stale class every failure is reported under one precise key
     auto resid = [&](const std::string& name, double value, double bound, const std::function<std::string()>& where_, const std::function<std::string()>& replay_) {
@@ -515,8 +517,8 @@ int main(int argc, char** argv) {
     for (int i = 0; i < H_N; ++i) allH.push_back(i);
     if (thorough) {
         addCases(0, treesR, 1, allH, allI, allG);
-        addCases(0, treesR, 2, allH, allI, {G_NONE, G_IRREG});
-        addCases(1, treesV, 2, allH, allI, {G_NONE, G_IRREG});
+        addCases(0, treesR, 2, allH, {I_EE, I_RK3, I_RKM, I_SEE, I_CPODES}, {G_NONE, G_IRREG});
+        addCases(1, treesV, 2, allH, {I_EE, I_RKM, I_SEE, I_CPODES}, {G_NONE, G_IRREG});
     }
     else {
         addCases(0, treesR, 1, allH, allI, {G_NONE, G_IRREG});
